@@ -155,6 +155,9 @@ class Canon:
             if a in ("startswith", "endswith") and len(e.args) == 1 and _strconst(e.args[0]) is not None:
                 return self._atom((a, norm(e.func.value), _strconst(e.args[0])), src(e))
         if isinstance(e, ast.Call) and isinstance(e.func, ast.Name) and e.func.id == "isinstance" and len(e.args) == 2:
+            if isinstance(e.args[1], ast.Tuple) and e.args[1].elts:
+                # isinstance(x, (A, B)) == isinstance(x, A) or isinstance(x, B)
+                return ("or", [self._atom(("isinstance", norm(e.args[0]), norm(c)), f"isinstance({src(e.args[0])}, {src(c)})") for c in e.args[1].elts])
             return self._atom(("isinstance", norm(e.args[0]), norm(e.args[1])), src(e))
         if isinstance(e, ast.Call) and isinstance(e.func, ast.Name) and e.func.id == "bool" and len(e.args) == 1:
             return self._f(e.args[0])
@@ -217,6 +220,19 @@ class Canon:
                                 if zero and not neg:
                                     return self._atom(("contains", fnd[0], fnd[1]), f"{fnd[1]!r} in …")
                                 return ("const", bool(zero))
+                    # len(X) against a threshold that only separates 0 from the rest: emptiness of X, i.e. `X` / `not X`
+                    if len(terms) == 1 and terms[k0] == 1.0:
+                        nd = nodes[k0]
+                        if isinstance(nd, ast.Call) and isinstance(nd.func, ast.Name) and nd.func.id == "len" and len(nd.args) == 1 and not nd.keywords:
+                            reg = _region_set(t, thr)
+                            zero = _eval_regions(reg, 0)
+                            rest = {_eval_regions(reg, v) for v in (1, 2, 3, 5, 1000)}
+                            if len(rest) == 1:
+                                pos = rest.pop()
+                                if zero == pos:
+                                    return ("const", bool(zero))
+                                tr = self._atom(("truthy", norm(nd.args[0])), src(nd.args[0]))
+                                return tr if pos else F_not(tr)
                     self.numeric.setdefault(subj, set()).add(thr)
                     return self._atom(("num", subj, _OPNAME[t], thr), f"{subj_txt} {_OPNAME[t]} {thr:g}")
                 # constant comparison
